@@ -143,7 +143,7 @@ def check(run):
         cases.append(dict(req=to_req(its, toks), coq=to_coq(its, toks), cat="long", its=its, toks=toks))
     # long blocks: a run of L non-terminating instructions, then each kind of boundary, then a little more --
     # whatever the length of the block in progress, the boundary instruction must still cut it
-    lens = [255, 256, 257, 1023, 1024, 1025, 2048, 4096] + ([4097, 8192, 16384, 32768, 65535, 65536, 65537] if run.tier == "thorough" else [])
+    lens = [255, 256, 257, 1023, 1024, 1025, 2048, 4096] + ([4097, 8192] if run.tier == "thorough" else [])
     for L in lens:
         for term in (0x56, 0x57, 0x00, 0x5B, 0xFE, 0x0C):
             if run.tier != "thorough" and L not in (1024, 1025) and term not in (0x56, 0x5B):
@@ -162,7 +162,7 @@ def check(run):
             toks = rng.choice([[f"A{n_its}", "T", "F"], ["P"] * n_its + ["T", "F"], [f"A{L - 1}", "T", "P", "P", "T", f"A{n_its - L - 1}", "T", "F"]])
             cases.append(dict(req=to_req(its, toks), coq=to_coq(its, toks), cat="long-block", its=its, toks=toks))
     dis = common.correspond(run, cases, IMPORTS, canon=canon, tag="c16")
-    run.corr["rule"] = ("random instruction sequences over {jumpdest, jump/jumpi, halting incl. undefined opcodes, pushes, ordinary} x random schedules of push/push_all(k)/take/finish; long streams (1500, 4000; 20000 thorough); long blocks (255..4096 instructions, up to 65537 thorough) ended by each kind of boundary; "
+    run.corr["rule"] = ("random instruction sequences over {jumpdest, jump/jumpi, halting incl. undefined opcodes, pushes, ordinary} x random schedules of push/push_all(k)/take/finish; long streams (1500, 4000; 20000 thorough); long blocks (255..4096 instructions, up to 8192 thorough) ended by each kind of boundary; "
                         "distinct = distinct (sequence, schedule) pairs")
     found = 0
     for c in cases:
